@@ -42,9 +42,9 @@ ASSUMPTIONS = [
     "the divergence theorem is checked in cartesian form (integrate_function_on_edges has no 2*pi*r weight)",
     "batched evaluation over the monomial basis uses vmap with a fixed batch length (141 volume, 198 edge rows); "
     "all configurations of a (topology, element) share one jit of the public, documented-jittable entry points; "
-    "the (cartesian, degree=order) configuration of every (mesh, pattern, element) -- and all configurations of the "
-    "first pattern of the single-triangle meshes -- additionally run the eager public path "
-    "construct_function_space / interpolate_to_points / compute_field_gradient",
+    "on the first pattern of every geometry the configurations (degree=order, both modes) and (degree=2*order, "
+    "cartesian) and the edge integrals with 1-D degree=order additionally run the eager public path "
+    "construct_function_space / interpolate_to_points / compute_field_gradient / integrate_function_on_edges",
     "create_padded_quadrature_rule_1D is asserted for degrees 0..9 only (it holds five tabulated rules; degrees "
     ">= 10 silently clamp to the 5-point rule -- recorded as a branch, outside the 1-D quantifier of the statement "
     "which mirrors create_quadrature_rule_1D)",
@@ -52,7 +52,7 @@ ASSUMPTIONS = [
 TAU = 1e-10
 TOLERANCES = {
     "all numerical oracles": "relative 1e-10 w.r.t. sum|terms| of the sum being tested (sum|N_a|, sum|grad N_a|, "
-                             "sum|N_a f(X_a)|, integral of |integrand| from the reference rule, sum over edges of "
+                             "(sum|N_a|) max_a|f(X_a)|, (sum|grad N_a|) max_a|f(X_a)|, integral of |integrand| from the reference rule, sum over edges of "
                              "integral |m n_c|); worst observed on the unchanged tree is recorded in observed_maxima",
     "sharpness observation": "a rule is called 'sharp' when some monomial one degree above the asserted bound has "
                              "relative error > 1e-8 (observation only)",
@@ -68,7 +68,6 @@ KX, KU = len(MX), len(MU)
 DX = R.mono_degrees(MX)
 DU = R.mono_degrees(MU)
 MAX_VIOL_PER_KEY = 2
-TARGET_GROUP_COST = 45.0
 
 
 def _q1_axis(tier, order):
@@ -77,7 +76,7 @@ def _q1_axis(tier, order):
 
 def bounds(tier):
     geo = {}
-    for topo in R.TOPOLOGIES:
+    for topo in R.topologies(tier):
         gs = R.geometries(topo, tier, 0)
         ne = len(gs[0][2])
         geo[topo] = {"elements": ne, "geometries": [g[0] for g in gs],
@@ -98,16 +97,18 @@ def _npairs(topo, tier, seed):
 
 def groups(tier, seed):
     gs = [{"name": "rules", "kind": "rules", "cost": 8.0}]
-    for topo in R.TOPOLOGIES:
+    target = 60.0 if tier == "quick" else 90.0
+    for topo in R.topologies(tier):
         npairs, ne = _npairs(topo, tier, seed)
         for order, bub in ETYPES:
-            per = (0.25 + 0.02 * ne + 0.03 * order) + 0.07 * len(_q1_axis(tier, order))
+            per = 0.15 + 0.012 * ne + 0.02 * order + (0.0 if tier == "quick" else 0.15)
+            fixed = 20.0 if bub else 10.0
             work = npairs * per
-            nsh = max(1, int(math.ceil(work / TARGET_GROUP_COST)))
+            nsh = max(1, int(math.ceil(work / target)))
             for s in range(nsh):
                 gs.append({"name": "%s-p%d%s-s%d" % (topo, order, "b" if bub else "", s), "kind": "mesh",
                            "topo": topo, "order": order, "bubble": bub, "shard": s, "nshards": nsh,
-                           "cost": 12.0 + work / nsh})
+                           "cost": fixed + work / nsh})
     gs.sort(key=lambda g: (-g["cost"], g["name"]))
     return gs
 
@@ -311,8 +312,21 @@ def run_group(g, tier, seed, rec):
             out.append(one_config(meshA, sref, qr, "axisymmetric", UA))
         return out
 
-    fast_all = jax.jit(all_configs)
-    integrate_basis_jit = jax.jit(integrate_basis)
+    compiled = {}
+
+    def call_compiled(name, fn, *args):
+        """One ahead-of-time compilation per (function, input shapes) and group. The XLA backend optimisation
+        level is lowered (compile time 1 s instead of 8 s; same program, same library code); if the option is not
+        understood the default compilation is used."""
+        key = (name,) + tuple(getattr(a, "shape", None) for a in jax.tree_util.tree_leaves(args))
+        if key not in compiled:
+            lowered = jax.jit(fn).lower(*args)
+            try:
+                compiled[key] = lowered.compile(compiler_options={"xla_backend_optimization_level": 0})
+            except Exception:  # noqa
+                compiled[key] = lowered.compile()
+            rec.branch("compiled:" + name)
+        return compiled[key](*args)
 
     def edge_flux(fs, U, qr1, edges):
         def one(cu, cx):
@@ -325,6 +339,17 @@ def run_group(g, tier, seed, rec):
             f = lambda X, n: np.dot(np.dot(cx.T, monos_at(X)), n)  # noqa: E731
             return Surface.integrate_function_on_surface(qr1, edges, mesh, f)
         return jax.vmap(one)(CX[2 * KU:])
+
+    tmpl = {}
+
+    def edge_all(coords, conns, U, edges):
+        """Every 1-D rule class on one mesh: the mesh record is the group's first library-built mesh with this
+        case's coordinates / connectivity (same parent elements), the FunctionSpace comes from the library factory."""
+        mesh_t = tmpl["mesh"]._replace(coords=coords, conns=conns)
+        fs = FunctionSpace.construct_function_space_from_parent_element(mesh_t, tmpl["sref"], tmpl["qr"], "cartesian")
+        outs = [edge_flux(fs, U, c1["qr"], edges) for c1 in classes1]
+        souts = [surface_flux(mesh_t, c1["qr"], edges) for c1 in classes1] if (order == 1 and not bubble) else []
+        return outs, souts
 
     # ---- rules (real calls for every degree of the axis; bit-identical results share a class) -------------
     rules2 = {}
@@ -450,7 +475,7 @@ def run_group(g, tier, seed, rec):
             # ---- all (rule class, mode) configurations through one compiled call -------------------------
             results = {}
             try:
-                out = fast_all(meshC, meshA, srefs, [c["qr"] for c in classes2], UC, UA)
+                out = call_compiled("all_configs", all_configs, meshC, meshA, srefs, [c["qr"] for c in classes2], UC, UA)
                 k = 0
                 for ci in range(len(classes2)):
                     for mode in ("cart", "axi"):
@@ -462,13 +487,14 @@ def run_group(g, tier, seed, rec):
                      dict(base_detail, error=repr(e)))
                 rec.case(prefix + ";q=1;mode=cart;path=jit", outcome="exception")
 
-            # ---- eager public path ------------------------------------------------------------------------
+            # ---- eager public path (first pattern of every geometry) ---------------------------------------
             eager = []
-            if topo == "tri1" and pi == 0:
-                eager = [(ci, mode) for ci in range(len(classes2)) for mode in ("cart", "axi")]
-            elif cls_of_order is not None:
-                eager = [(classes2.index(cls_of_order), "cart")]
-            fs_edge = None
+            if pi == 0 and cls_of_order is not None:
+                eager = [(classes2.index(cls_of_order), "cart"), (classes2.index(cls_of_order), "axi")]
+                c2 = next((c for c in classes2 if 2 * order in c["qs"]), None)
+                if c2 is not None and c2 is not cls_of_order:
+                    eager.append((classes2.index(c2), "cart"))
+            fs_eager = None
             for ci, mode in eager:
                 cidE = "%s;q=%d;mode=%s;path=eager" % (prefix, classes2[ci]["qs"][0], mode)
                 try:
@@ -478,13 +504,13 @@ def run_group(g, tier, seed, rec):
                         mesh, classes2[ci]["qr"], mode2D="cartesian" if mode == "cart" else "axisymmetric")
                     vals = FunctionSpace.interpolate_to_points(fs, U)
                     grads = FunctionSpace.compute_field_gradient(fs, U)
-                    I = integrate_basis_jit(fs, U, mesh.blocks["block_0"])
+                    I = call_compiled("integrate_basis", integrate_basis, fs, U, mesh.blocks["block_0"])
                     results[(ci, mode, "eager")] = [onp.asarray(a) for a in
                                                     (fs.shapes, fs.shapeGrads, fs.vols, vals, grads, I)]
                     rec.transition(4)
                     rec.branch("entry:construct_function_space(eager)")
                     if mode == "cart" and classes2[ci] is cls_of_order:
-                        fs_edge = fs
+                        fs_eager = fs
                 except Exception as e:  # noqa
                     viol("FunctionSpace|eager-path|%s|%s" % (bflag, exception_key(e)), cidE,
                          dict(base_detail, error=repr(e), mode=mode))
@@ -492,14 +518,19 @@ def run_group(g, tier, seed, rec):
 
             # ---- oracles per configuration, then per stated degree ---------------------------------------
             grad_route_cart = None
+            grad_route_ok = False
             for (ci, mode, path), arrs in sorted(results.items()):
                 c = classes2[ci]
                 rq = refq[mode]
                 er = _errors(arrs, connsL, Unp[mode], exact[(ci, mode)], rq)
-                if path == "eager" and mode == "cart" and c is cls_of_order:
+                if path == "jit" and mode == "cart" and c is cls_of_order:
                     grad_route_cart = (er["I_g"], er["gscale"])
-                qs = c["qs"] if path == "jit" else ([order] if (c is cls_of_order and not (topo == "tri1" and pi == 0))
-                                                    else c["qs"])
+                    grad_route_ok = bool(
+                        er["gsum"] <= TAU and er["vol"] <= TAU
+                        and not ((DU <= order) & ~(er["grad"] <= TAU)).any()
+                        and not ((DX <= min(order, 10)) & ~(er["IX"] <= TAU)).any()
+                        and not ((DU <= order)[:, None] & ~(er["Ig"] <= TAU)).any())
+                qs = c["qs"] if path == "jit" else [q for q in c["qs"] if q in (order, 2 * order)]
                 for q in qs:
                     cid = "%s;q=%d;mode=%s;path=%s" % (prefix, q, mode, path)
                     if not rec.want(cid):
@@ -510,64 +541,75 @@ def run_group(g, tier, seed, rec):
                     nfail = 0
 
                     def fail(routine, sig, extra):
-                        viol("%s|%s|mode=%s|%s" % (routine, sig, mode, bflag), cid, dict(det, **extra))
+                        viol("%s|%s" % (routine, sig), cid, dict(det, **extra))
 
-                    # partition of unity / zero gradient sum at every quadrature point
-                    if not er["pou"] <= TAU:
+                    # A failure is reported at the first oracle of its causal chain only (partition of unity is the
+                    # degree-0 case of value reproduction; sum(vols) is the degree-0 case of integration; the
+                    # integrals of interpolated fields repeat value/gradient reproduction and the quadrature), so
+                    # that one defect maps to one or two finding keys instead of a dozen.
+                    mk = DU <= order
+                    ok_pou = er["pou"] <= TAU
+                    if not ok_pou:
                         nfail += 1
-                        fail("FunctionSpace.shapes", "partition-of-unity",
+                        fail("FunctionSpace.shapes", "partition-of-unity|" + bflag,
                              {"rel_err": er["pou"], "at(element,qp)": er["pou_at"], "sum": er["pou_val"]})
-                    if not er["gsum"] <= TAU:
+                    ok_gsum = er["gsum"] <= TAU
+                    if not ok_gsum:
                         nfail += 1
-                        fail("FunctionSpace.shapeGrads", "gradient-sum-not-zero",
+                        fail("FunctionSpace.shapeGrads", "gradient-sum-not-zero|" + bflag,
                              {"rel_err": er["gsum"], "at(element,qp,comp)": er["gsum_at"], "sum": er["gsum_val"]})
                     # nodal interpolation, degree <= order
-                    mk = DU <= order
                     bad = onp.where(mk & ~(er["val"] <= TAU))[0]
-                    if bad.size:
+                    ok_val = ok_pou and not bad.size
+                    if ok_pou and bad.size:
                         nfail += 1
                         k = int(bad[0])
                         e_, q_ = er["val_at"][k]
-                        fail("interpolate_to_points", "value-not-reproduced",
+                        fail("interpolate_to_points", "value-not-reproduced|" + bflag,
                              {"monomial": list(MU[k]), "rel_err": float(er["val"][k]), "at(element,qp)": [e_, q_],
                               "observed": float(arrs[3][e_, q_, k]), "expected": float(exact[(ci, mode)][0][e_, q_, k])})
                     bad = onp.where(mk & ~(er["grad"] <= TAU))[0]
-                    if bad.size:
+                    ok_grad = ok_gsum and not bad.size
+                    if ok_gsum and bad.size:
                         nfail += 1
                         k = int(bad[0])
                         e_, q_ = er["grad_at"][k]
-                        fail("compute_field_gradient", "gradient-not-reproduced",
+                        fail("compute_field_gradient", "gradient-not-reproduced|" + bflag,
                              {"monomial": list(MU[k]), "rel_err": float(er["grad"][k]), "at(element,qp)": [e_, q_],
                               "observed": arrs[4][e_, q_, k], "expected": exact[(ci, mode)][1][e_, q_, k]})
-                    # volumes (L >= 0 always: the constant is within every stated degree in both readings)
-                    if not er["vol"] <= TAU:
+                    # volumes (the constant is within every stated degree in both readings)
+                    # (axisymmetric volumes and the coordinates handed to the integrand are themselves interpolated
+                    # with the shape functions, so they are only judged when value reproduction holds)
+                    shapes_ok = ok_val or (mode == "cart")
+                    ok_vol = er["vol"] <= TAU
+                    if not ok_vol and shapes_ok:
                         nfail += 1
-                        fail("FunctionSpace.vols", "sum-not-domain-measure",
+                        fail("FunctionSpace.vols", "sum-not-domain-measure|mode=" + mode,
                              {"observed": er["vol_val"], "expected": float(rq["vol"]), "rel_err": er["vol"]})
                     # integration of every monomial of degree <= L (three routes)
                     npts = "npts=%d" % len(c["w"])
                     bad = onp.where((DX <= min(L, 10)) & ~(er["IX"] <= TAU))[0]
-                    if bad.size:
+                    ok_X = ok_vol and ok_val and not bad.size
+                    if ok_vol and ok_val and bad.size:
                         nfail += 1
                         k = int(bad[0])
-                        fail("integrate_over_block", "monomial-of-coordinates-inexact|" + npts,
+                        fail("integrate_over_block", "monomial-of-coordinates-inexact|mode=%s|%s" % (mode, npts),
                              {"monomial": list(MX[k]), "observed": float(er["I_X"][k]), "expected": float(rq["mom"][k]),
                               "rel_err": float(er["IX"][k])})
                     bad = onp.where((DU <= min(order, L)) & ~(er["Iu"] <= TAU))[0]
-                    if bad.size:
+                    if ok_X and ok_val and bad.size:
                         nfail += 1
                         k = int(bad[0])
-                        fail("integrate_over_block", "nodal-monomial-field-inexact|" + npts,
+                        fail("integrate_over_block", "nodal-monomial-field-inexact|mode=" + mode,
                              {"monomial": list(MU[k]), "observed": float(er["I_u"][k]), "expected": float(rq["mom"][k]),
                               "rel_err": float(er["Iu"][k])})
                     bad = onp.argwhere((DU <= min(order, L + 1))[:, None] & ~(er["Ig"] <= TAU))
-                    if bad.size:
+                    if ok_X and ok_grad and bad.size:
                         nfail += 1
                         k, cc = int(bad[0][0]), int(bad[0][1])
-                        fail("integrate_over_block", "gradient-of-nodal-monomial-field-inexact|" + npts,
+                        fail("integrate_over_block", "gradient-of-nodal-monomial-field-inexact|mode=" + mode,
                              {"monomial": list(MU[k]), "component": cc, "observed": float(er["I_g"][k, cc]),
                               "expected": float(rq["div"][k, cc]), "rel_err": float(er["Ig"][k, cc])})
-
                     # calibration numbers (only over what was asserted)
                     rec.track_max("partition-of-unity", er["pou"])
                     rec.track_max("gradient-sum", er["gsum"])
@@ -594,25 +636,42 @@ def run_group(g, tier, seed, rec):
                     rec.case(cid, nontrivial=nonident and L >= 1, outcome=outcome, sample=sample, steps=4)
 
             # ---- divergence theorem over the closed boundary (cartesian) ----------------------------------
-            if fs_edge is not None:
-                el_edges = np.array(bedges_lib)
-                for c1 in classes1:
-                    want = [q1 for q1 in c1["qs"] if rec.want("%s;edge;q1=%d" % (prefix, q1))]
-                    if not want:
-                        continue
-                    cid0 = "%s;edge;q1=%d" % (prefix, want[0])
+            el_edges = np.array(bedges_lib)
+            edge_results = []
+            cidE0 = "%s;edge;q1=%d;path=jit" % (prefix, classes1[0]["qs"][0]) if classes1 else prefix + ";edge"
+            if cls_of_order is not None and classes1 and len(bedges_lib):
+                if "mesh" not in tmpl:
+                    tmpl.update(mesh=meshC, sref=srefs[classes2.index(cls_of_order)], qr=cls_of_order["qr"])
+                try:
+                    outs, souts = call_compiled("edge_all", edge_all, meshC.coords, meshC.conns, UC, el_edges)
+                    for k1, c1 in enumerate(classes1):
+                        edge_results.append(("jit", c1, onp.asarray(outs[k1]),
+                                             onp.asarray(souts[k1]).reshape(KX, 2) if souts else None))
+                    rec.transition(len(outs) + len(souts))
+                    if souts:
+                        rec.branch("entry:Surface.integrate_function_on_surface", len(souts))
+                except Exception as e:  # noqa
+                    viol("integrate_function_on_edges|%s|%s" % (bflag, exception_key(e)), cidE0,
+                         dict(base_detail, error=repr(e)))
+                    rec.case(cidE0, outcome="exception")
+                if fs_eager is not None:
+                    c1 = next((c for c in classes1 if order in c["qs"]), classes1[0])
                     try:
-                        F = onp.asarray(edge_flux(fs_edge, UC, c1["qr"], el_edges))
-                        rec.transition(1)
+                        F = onp.asarray(edge_flux(fs_eager, UC, c1["qr"], el_edges))
                         Fs = None
                         if order == 1 and not bubble:
                             Fs = onp.asarray(surface_flux(meshC, c1["qr"], el_edges)).reshape(KX, 2)
-                            rec.transition(1)
-                            rec.branch("entry:Surface.integrate_function_on_surface")
+                        edge_results.append(("eager", c1, F, Fs))
+                        rec.transition(1 if Fs is None else 2)
+                        rec.branch("entry:integrate_function_on_edges(eager)")
                     except Exception as e:  # noqa
-                        viol("integrate_function_on_edges|%s|%s" % (bflag, exception_key(e)), cid0,
-                             dict(base_detail, error=repr(e), edge_rule_degree=want[0]))
-                        rec.case(cid0, outcome="exception")
+                        viol("integrate_function_on_edges|%s|%s" % (bflag, exception_key(e)),
+                             "%s;edge;q1=%d;path=eager" % (prefix, c1["qs"][0]), dict(base_detail, error=repr(e)))
+            if edge_results:
+                for path, c1, F, Fs in edge_results:
+                    qs1 = c1["qs"] if path == "jit" else [q1 for q1 in c1["qs"] if q1 == order] or c1["qs"][:1]
+                    want = [q1 for q1 in qs1 if rec.want("%s;edge;q1=%d;path=%s" % (prefix, q1, path))]
+                    if not want:
                         continue
                     Fu = F[:2 * KU].reshape(KU, 2)
                     FX = F[2 * KU:].reshape(KX, 2)
@@ -624,28 +683,31 @@ def run_group(g, tier, seed, rec):
                     if grad_route_cart is not None:
                         rv = _rel(onp.abs(Fu - grad_route_cart[0]), sc[:KU] + grad_route_cart[1])
                     for q1 in want:
-                        cid = "%s;edge;q1=%d" % (prefix, q1)
-                        det = dict(base_detail, edge_rule_degree=q1, npts_1d=int(len(c1["w"])),
+                        cid = "%s;edge;q1=%d;path=%s" % (prefix, q1, path)
+                        det = dict(base_detail, edge_rule_degree=q1, npts_1d=int(len(c1["w"])), path=path,
                                    boundary_edges_element_side=bedges_lib)
                         nfail = 0
                         mu = DU <= min(order, q1)
                         mx = DX <= min(q1, 10)
+                        ok_u = True
                         for name, r, mask, got, route in (("u", ru, mu, Fu, "nodal-field"), ("X", rX, mx, FX, "coordinates"),
                                                           ("S", rS, mx, Fs, "surface")):
                             if r is None:
                                 continue
                             bad = onp.argwhere(mask[:, None] & ~(r <= TAU))
-                            if bad.size:
+                            if name == "u":
+                                ok_u = not bad.size
+                            if bad.size and (name != "X" or ok_u):      # same normals / jacobians / face nodes as route u
                                 nfail += 1
                                 k, cc = int(bad[0][0]), int(bad[0][1])
-                                routine = ("Surface.integrate_function_on_surface" if name == "S"
-                                           else "integrate_function_on_edges")
-                                viol("%s|divergence-theorem|route=%s|%s" % (routine, route, bflag), cid,
+                                key = ("Surface.integrate_function_on_surface|divergence-theorem" if name == "S" else
+                                       "integrate_function_on_edges|divergence-theorem|route=%s|%s" % (route, bflag))
+                                viol(key, cid,
                                      dict(det, monomial=list(MX[k]), component=cc, boundary_integral=float(got[k, cc]),
                                           exact_volume_integral_of_divergence=float(divX[k, cc]),
                                           rel_err=float(r[k, cc])))
                             rec.track_max("divergence-theorem:" + route, float(r[mask].max()))
-                        if rv is not None:
+                        if rv is not None and ok_u and grad_route_ok:
                             mv = DU <= min(order, q1)
                             bad = onp.argwhere(mv[:, None] & ~(rv <= TAU))
                             if bad.size:
@@ -665,7 +727,7 @@ def run_group(g, tier, seed, rec):
                                  sample=({"case": cid, "boundary_edges": int(len(bedges_lib)),
                                           "fields_asserted": int(2 * mu.sum() + 2 * mx.sum()),
                                           "worst_rel_err": float(max(ru[mu].max(), rX[mx].max()))}
-                                         if pi == 0 and gi == 0 and q1 == order else None))
+                                         if pi == 0 and gi == 0 and q1 == order and path == "jit" else None))
             if len(bedges_lib) != len(bedges_ref):
                 rec.branch("boundary:library-edge-count-differs-from-reference")
             else:
@@ -689,15 +751,17 @@ def _errors(arrs, connsL, U, exact, rq):
     at = onp.unravel_index(int(onp.argmax(r)), r.shape)
     out["gsum"], out["gsum_at"], out["gsum_val"] = float(r.max()), [int(a) for a in at], float(gsum[at])
     # interpolation
-    Ue = U[connsL]                                              # (ne, nn, k)
-    aUe = onp.abs(Ue)
-    vs = onp.einsum("eqa,eak->eqk", onp.abs(shapes), aUe)
+    # scale of a nodal sum: (sum_a |N_a|) * max_a |f(X_a)| -- the tabulated N_a carry an *absolute* rounding
+    # error (they come from a Vandermonde solve), so sum_a |N_a f(X_a)| would underestimate it wherever the
+    # quadrature point coincides with a node (e.g. centroid node of the bubble elements)
+    fmax = onp.abs(U[connsL]).max(axis=1)                       # (ne, k)
+    vs = onp.abs(shapes).sum(-1)[:, :, None] * fmax[:, None, :]
     r = _rel(onp.abs(vals - ex_v), vs + onp.abs(ex_v))
     k = r.shape[-1]
     flat = r.reshape(-1, k)
     out["val"] = flat.max(0)
     out["val_at"] = [[int(a) for a in onp.unravel_index(int(i), r.shape[:2])] for i in flat.argmax(0)]
-    gs = onp.einsum("eqac,eak->eqkc", onp.abs(sgrads), aUe)
+    gs = onp.abs(sgrads).sum(2)[:, :, None, :] * fmax[:, None, :, None]
     rg = _rel(onp.abs(grads - ex_g), gs + onp.abs(ex_g)).max(-1)
     flat = rg.reshape(-1, k)
     out["grad"] = flat.max(0)
